@@ -16,7 +16,7 @@ CLAIMED = {
    ref="DESIGN.md §4 R16 R10; §5 C04"),
  "C05": dict(
    technique="static analysis: abstract dimension-index kinds over every index expression of Conv (FULL/SPATIAL/PADS lists x index kinds), loop/coordinate pairing rules on the sliding-window nests, partition rule on auto_pad comparisons, ownership and attribute-state rules",
-   text="Square fixtures cannot tell axes apart; the rules constrain which axis an expression may talk about: K1 classifies all ~60 index expressions in Conv's methods (a per-tensor-axis list may only be indexed by a constant, a non-spatial, a full-range or a spatial+2 index, ...); K2 pairs, per spatial axis k, the window start (step strides[k], bound = padded extent 2+k), the output index (start/strides[k], limited by output extent 2+k) and its SetAt position 2+k; K3 pairs batch and kernel indices; K4 requires every auto_pad mode to be told apart and unknown modes refused; K6 requires every reader of the kernel extents (auto_pad paddings, output shape) to be given the dilated kernel; bias and kernel are not modified (R3); Apply does not overwrite attributes (R21); the bias default only replaces an absent bias (R24).",
+   text="Square fixtures cannot tell axes apart; the rules constrain which axis an expression may talk about: K1 classifies all ~60 index expressions in Conv's methods (a per-tensor-axis list may only be indexed by a constant, a non-spatial, a full-range or a spatial+2 index, ...); K2 pairs, per spatial axis k, the window start (step strides[k], bound = padded extent 2+k), the output index (start/strides[k], limited by output extent 2+k) and its SetAt position 2+k; K3 pairs batch and kernel indices; K4 requires every auto_pad mode to be told apart and unknown modes refused; K7 requires every derived padding to be provably non-negative (auto_pad with stride > kernel extent otherwise panics in padInput; found and repaired); K6 requires every reader of the kernel extents (auto_pad paddings, output shape) to be given the dilated kernel; bias and kernel are not modified (R3); Apply does not overwrite attributes (R21); the bias default only replaces an absent bias (R24).",
    note="Level 'other'. One known finding (auto_pad=VALID computed as SAME_UPPER, pinned by the suite). Not decided: the multiply-accumulate itself, zero insertion for dilation, padding by concatenation.",
    ref="DESIGN.md §4 R11 R24; §0a round 2; §5 C05"),
  "C06": dict(
